@@ -10,6 +10,7 @@ pub mod c09;
 pub mod c11;
 pub mod c13;
 pub mod c16;
+pub mod c17;
 pub mod replay;
 
 use crate::common::{Coverage, Ctx};
@@ -29,6 +30,7 @@ pub fn dispatch(ctx: &Ctx) -> Option<Coverage> {
         "C11" => c11::run_c11(ctx),
         "C13" => c13::run(ctx),
         "C16" => c16::run(ctx),
+        "C17" => c17::run(ctx),
         "C12" => c11::run_c12(ctx),
         _ => return None,
     })
